@@ -499,7 +499,7 @@ func genUnfAny(r *Rand, tier string, emit func(string)) {
 	emit("unf any - 1 {3:5,Q:61,i:1,Q:62,i:2,Q:61,i:3,}")
 }
 
-var uStructTargets = []string{"@S1", "@S2", "@S3", "@In", "@In2", "*@S1", "**@S2", "[]@S1", "map:@S1", "[]*@In2",
+var uStructTargets = []string{"@S1", "@S2", "@S3", "@S4", "@S4", "*@S4", "[]@S4", "map:@S4", "@Mid", "@In", "@In2", "*@S1", "**@S2", "[]@S1", "map:@S1", "[]*@In2",
 	"map:*@S3", "[]@S3", "*[]@In", "map:[]@In", "[]map:@In", "[][]@In", "map:map:@In2", "*@S3",
 	// named and self-referential types
 	"@List", "@Tree", "@A", "@B", "@Named", "*@List", "[]@Tree", "map:@A", "**@B", "[]*@List", "map:[]@Tree", "@MyIn", "*@Named"}
